@@ -662,6 +662,19 @@ func runC13(r *simkit.R) {
 				r.Failf("fault", "write after the fault window is unreadable", "%s: %v", label, err)
 			}
 		}
+		if fired > 0 {
+			// "the affected writes report an error": every intercepted call belongs to some write,
+			// so a fault that fired must surface in at least one write's result
+			failed := 0
+			for _, op := range ops {
+				if op.err != nil {
+					failed++
+				}
+			}
+			if failed == 0 {
+				r.Failf("fault", "a failing call is swallowed: no write reports an error ["+faultSig(firedDesc)+"]", "%s: fault(s) [%s] fired but all %d writes report success", label, sig, len(ops))
+			}
+		}
 		for _, op := range ops {
 			if len(faults) == 0 && op.err != nil {
 				r.Failf("fault", "write failed without faults", "%s: %s: %v", label, op, op.err)
